@@ -742,6 +742,13 @@ def struct_session(g, tier):
             hdr["count"] = c
             recs = [{n: g.rbytes(w) for n, w in rl} for _ in range(c)]
             ops.append({"op": "struct", "v": ver, "hdr": hdr, "recs": recs})
+        # structures outside the statement (count differs from the number of records: no verdict on them) exported
+        # in between: what they leave behind must not reach the structures the statement is about
+        for c, n in ((1, 3), (2, 2), (5, 2), (1, 1), (0, 2), (3, 3)):
+            hdr = {n_: g.rbytes(w) for n_, w in hl}
+            hdr["count"] = c
+            recs = [{n_: g.rbytes(w) for n_, w in rl} for _ in range(n)]
+            ops.append({"op": "struct", "v": ver, "hdr": hdr, "recs": recs})
     return ops
 
 
